@@ -78,6 +78,17 @@ theorem multisig_sound (p : Params) (h : Hash) (keys : List Key) (m : Int) (sigs
     ∀ k ∈ picked keys mask, ∃ sig ∈ sigs, p.verify k h sig = true :=
   verifyMulti_ok p h keys m sigs mask hm
 
+/-- **Completeness of the greedy multi-signature check** under the hypothesis "one listed key per signature": if
+the list holds at least `m` signatures, each of the first `m` decodes and verifies under exactly one listed key, and
+these keys are pairwise different, `VerifyMultiSignature` accepts (the greedy choice never blocks a later match). -/
+theorem multisig_complete (p : Params) (h : Hash) (keys : List Key) (m : Int) (sigs : List Sig) (signer : Sig → Key)
+    (hlen : m ≤ (sigs.length : Int))
+    (hsig : ∀ sig ∈ sigs.take m.toNat, p.decode sig = true ∧ signer sig ∈ keys ∧
+      p.verify (signer sig) h sig = true ∧ ∀ k ∈ keys, p.verify k h sig = true → k = signer sig)
+    (hinj : ((sigs.take m.toNat).map signer).Nodup) :
+    ∃ mask, verifyMulti p h keys m sigs = .ok mask :=
+  verifyMulti_complete p h keys m sigs signer hlen hsig hinj
+
 /-- Too few signatures are refused before any is looked at. -/
 theorem few_signatures_rejected (p : Params) (h : Hash) (keys : List Key) (m : Int) (sigs : List Sig)
     (hlt : (sigs.length : Int) < m) : verifyMulti p h keys m sigs = .error .fewsigs := by
